@@ -4,6 +4,8 @@ from engine.anl.origin import fmt, subterms, strip_bb
 from engine.anl.casts import const_value
 from .common import S, co, calls_norm, is_call_term, var_name, render_path, phi_alts
 
+from .common import ok_return_blocks as _okret
+
 EXPLANATION = (
     "Static decision of the authentication gate: (R06.1) every construction of a server session is dominated by the success "
     "(Continue) edge of `authenticate_client(..).await?` in the same body — no path (timeout, error, early fall-through) reaches "
@@ -80,7 +82,7 @@ def r2_full_width(ctx):
     is_ne = c.term[1].endswith("::ne")
     eq_edges = c.edges_for(False) if is_ne else c.edges_for(True)
     ne_edges = c.edges_for(True) if is_ne else c.edges_for(False)
-    ok_rets = [bi for kind, bi, si, rv in body.defs().get(0, []) if kind == "assign" and rv["r"] == "aggregate" and rv["kind"].get("variant") == "Ok"]
+    ok_rets = _okret(body, ctx.origins(body))
     okp = bool(ok_rets) and all(cfg.edges_dominate(eq_edges, b) for b in ok_rets)
     ctx.ob("R06.2", "authenticate_client:Ok-only-after-equal", okp, "", "every Ok return is dominated by the equal edge" if okp else "Ok can be returned without passing the equal edge of the hash comparison")
     # the not-equal edge leads to AuthenticationFailed and nothing else
@@ -123,7 +125,7 @@ def r3_exact_skip(ctx):
     # guarded only by `> 0`
     guards = [c for c in conds.all() if c.kind == "bool" and cfg.edges_dominate(c.edges_for(True), exact[2].bb) or c.kind == "bool" and cfg.edges_dominate(c.edges_for(False), exact[2].bb)]
     guards = [c for c in guards if not (isinstance(c.term, tuple) and c.term[0] == "call" and "PartialEq" in c.term[1])]
-    okg = all(isinstance(c.term, tuple) and c.term[0] == "binop" and c.term[1] in ("Gt", "Ne") and const_value(c.term[3]) == 0 and L is not None and strip_bb(c.term[2]) == strip_bb(L) for c in guards)
+    okg = all(isinstance(c.term, tuple) and c.term[0] == "binop" and c.term[1] in ("Gt", "Ne", "Eq") and const_value(c.term[3]) == 0 and L is not None and strip_bb(c.term[2]) == strip_bb(L) for c in guards)
     ctx.ob("R06.3", "authenticate_client:skip-guard", okg, "", "the skip is conditional on `len > 0` only (%d guard)" % len(guards) if okg else
            "the padding skip is guarded by %s: some declared lengths are not skipped" % [fmt(c.term)[:60] for c in guards])
 
